@@ -26,6 +26,19 @@ class StateVecExecutor(NetExecutor):
             raise RuntimeError(f"physical position {p} outside the simulated register")
         return p
 
+    def _get_rotation_angle_from_operands(self, app_id, n, d):
+        """the float angle the real executor hands to a back end must be n pi / 2^d (modulo a full turn); this simulator itself works
+        on the exact operands, so the float is only checked here"""
+        if isinstance(n, SymInt) or isinstance(d, SymInt):
+            return 0.0
+        import math
+        from netqasm.backend.executor import Executor
+        a = Executor._get_rotation_angle_from_operands(self, app_id, n, d)
+        want = n * math.pi / 2 ** d
+        if abs(math.remainder(a - want, 2 * math.pi)) > 1e-9:
+            raise RuntimeError(f"angle handed to the back end for ({n}, {d}) is {a!r}, not {n} pi / 2^{d}")
+        return a
+
     def _do_single_qubit_instr(self, instr, subroutine_id, address):
         super()._do_single_qubit_instr(instr, subroutine_id, address)
         mn = instr.mnemonic
